@@ -207,6 +207,185 @@ RECIPES = {
 }
 
 
+# ---------------------------------------------------------------------------
+# argument boxes: the recipes above are single points of each function's argument space; a box draws
+# further points (degenerate block structures, odd sizes, probabilities 0 / 1 / tiny, sizes beyond the
+# thresholds of size-dependent code paths, other label kinds, optional arguments) from a generator that is
+# re-created for every call, so that "the same arguments" are equal values in fresh objects
+# ---------------------------------------------------------------------------
+def _rh(r, n=None, labels=None, cover=False):
+    """an input hypergraph for layouts / shuffles / clustering (built with explicit seeds: a function of r only)"""
+    n = n or r.choice([5, 7, 10])
+    edges = []
+    for _ in range(r.randint(3, 7) + (n // 2 if cover else 0)):
+        edges.append(r.sample(range(n), r.choice([2, 2, 3, 3, 4])))
+    if cover:  # every node in some edge (spectral clustering refuses isolated nodes)
+        for x in range(n):
+            if not any(x in e for e in edges):
+                r.choice(edges).append(x)
+    H = _xgi.Hypergraph()
+    kind = labels or r.choice(["int", "int", "str", "iso"])
+    lab = (lambda x: f"n{x}") if kind == "str" else (lambda x: x)
+    H.add_nodes_from([lab(x) for x in range(n + (2 if kind == "iso" else 0))])
+    H.add_edges_from([[lab(x) for x in e] for e in edges])
+    return H
+
+
+def _pick_p(r):
+    # mostly probabilities strictly between 0 and 1: a deterministic outcome says nothing about the seed
+    return r.choice([0.0, 0.05, 0.05, 0.3, 0.3, 0.5, 0.5, 0.8, 0.8, 1.0])
+
+
+def _box_hsbm(r):
+    nb = r.choice([1, 1, 2, 3])
+    sizes = [r.randint(2, 4) for _ in range(nb)]
+    m = r.choice([2, 3])
+    vals = [r.choice([0.0, 0.1, 0.1, 0.5, 0.5, 1.0]) for _ in range(nb ** m)]
+    if all(v in (0.0, 1.0) for v in vals):
+        vals[r.randrange(len(vals))] = r.choice([0.2, 0.6])
+    p = np.array(vals, dtype=float).reshape((nb,) * m)
+    return lambda s: xgi.uniform_HSBM(sum(sizes), m, p, list(sizes), seed=s)
+
+
+def _box_hppm(r):
+    n, m, k = r.choice([5, 7, 8, 9, 11, 15, 30]), r.choice([2, 3]), r.choice([1, 2, 3])
+    eps, rho = r.choice([0, 0.3, 0.9, 1]), r.choice([0.5, 0.5, 0.35, 0.2, 0.8])
+    return lambda s: xgi.uniform_HPPM(n, m, k, eps, rho, seed=s)
+
+
+def _box_er(r):
+    n, m = r.choice([4, 6, 9, 40]), r.choice([2, 3])
+    pt = r.choice(["prob", "prob", "degree"])
+    p = _pick_p(r) if pt == "prob" else r.choice([0.5, 1, 2])
+    me = r.random() < 0.5
+    return lambda s: xgi.uniform_erdos_renyi_hypergraph(n, m, p, p_type=pt, multiedges=me, seed=s)
+
+
+def _box_rh(name):
+    def box(r):
+        n = r.choice([3, 5, 8, 12])
+        ps = [_pick_p(r) * r.choice([1, 0.1]) for _ in range(r.randint(1, 3))]
+        order = None if r.random() < 0.6 else r.sample([1, 2, 3, 4], len(ps))
+        return lambda s: getattr(xgi, name)(n, list(ps), order=order, seed=s)
+    return box
+
+
+def _box_rsc(r):
+    N = r.choice([4, 6, 9, 200, 60])
+    ps = {200: [0.002, 2e-6], 60: [0.01, 1e-4, 1e-6, 3e-7]}.get(N) or [_pick_p(r) for _ in range(r.randint(1, 3))]
+    return lambda s: xgi.random_simplicial_complex(N, list(ps), seed=s)
+
+
+def _box_ws(r):
+    n, d = r.choice([6, 8, 11]), r.choice([2, 3])
+    k, l, p = r.choice([2, 4]), r.choice([0, 1, 2]), r.choice([0, 0.3, 1])
+    return lambda s: xgi.watts_strogatz_hypergraph(n, d, k, l, p, seed=s)
+
+
+def _box_cl(r):
+    n1, n2 = r.randint(3, 7), r.randint(2, 5)
+    k1, k2 = [r.randint(0, 3) for _ in range(n1)], [r.randint(1, 4) for _ in range(n2)]
+    return lambda s: xgi.chung_lu_hypergraph({i: d for i, d in enumerate(k1)}, {i: d for i, d in enumerate(k2)}, seed=s)
+
+
+def _box_dcsbm(r):
+    n1, n2, g = r.randint(3, 7), r.randint(2, 5), r.choice([1, 2, 3])
+    k1, k2 = [r.randint(1, 3) for _ in range(n1)], [r.randint(1, 4) for _ in range(n2)]
+    g1, g2 = [i % g for i in range(n1)], [i % g for i in range(n2)]
+    om = [[float(r.choice([0, 1, 3, 6])) for _ in range(g)] for _ in range(g)]
+    return lambda s: xgi.dcsbm_hypergraph(dict(enumerate(k1)), dict(enumerate(k2)), dict(enumerate(g1)), dict(enumerate(g2)),
+                                          np.array(om), seed=s)
+
+
+def _box_cfg(r):
+    ks, m = [r.randint(1, 3) for _ in range(r.randint(4, 8))], r.choice([2, 3])
+    lab = r.choice([lambda i: i, lambda i: f"v{i}"])
+    return lambda s: xgi.uniform_hypergraph_configuration_model({lab(i): d for i, d in enumerate(ks)}, m, seed=s)
+
+
+def _box_flag(name):
+    def box(r):
+        n, gs = r.choice([4, 5, 6, 8]), r.randint(0, 99)
+        dens = r.choice([0.5, 0.8, 1.0])
+        mo = r.choice([2, 3])
+        ps = [_pick_p(r) for _ in range(mo - 1)] if r.random() < 0.8 else None
+        if name == "flag_complex":
+            return lambda s: xgi.flag_complex(nx.gnp_random_graph(n, dens, seed=gs), max_order=mo, ps=ps, seed=s)
+        if name == "flag_complex_d2":
+            return lambda s: xgi.flag_complex_d2(nx.gnp_random_graph(n, dens, seed=gs), p2=None if ps is None else ps[0], seed=s)
+        if name == "random_flag_complex":
+            return lambda s: xgi.random_flag_complex(n, dens, max_order=mo, seed=s)
+        return lambda s: xgi.random_flag_complex_d2(n, dens, seed=s)
+    return box
+
+
+def _box_layout(name):
+    def box(r):
+        st = r.getstate()
+        kw = {}
+        if name == "random_layout":
+            kw = r.choice([{}, {"center": [1.0, -2.0]}])
+        elif r.random() < 0.4:
+            kw = {"k": r.choice([0.3, 1.0])}
+        sc = r.random() < 0.25
+
+        def call(s):
+            r2 = random.Random()
+            r2.setstate(st)
+            H = _rh(r2)
+            if sc:
+                H = _xgi.SimplicialComplex([list(m) for m in H.edges.members()])
+            return getattr(xgi, name)(H, seed=s, **kw)
+        return call
+    return box
+
+
+def _box_shuffle(r):
+    st = r.getstate()
+    order, p = r.choice([1, 2]), r.choice([0.3, 0.7, 1])
+
+    def call(s):
+        r2 = random.Random()
+        r2.setstate(st)
+        return xgi.shuffle_hyperedges(_rh(r2, labels="int"), order, p, seed=s)
+    return call
+
+
+def _box_spectral(r):
+    st = r.getstate()
+    k = r.choice([2, 3, 4])
+
+    def call(s):
+        r2 = random.Random()
+        r2.setstate(st)
+        return xgi.spectral_clustering(_rh(r2, n=r2.choice([12, 16, 22]), labels="int", cover=True), k, seed=s)
+    return call
+
+
+BOXES = {
+    "uniform_HSBM": _box_hsbm, "uniform_HPPM": _box_hppm, "uniform_erdos_renyi_hypergraph": _box_er,
+    "fast_random_hypergraph": _box_rh("fast_random_hypergraph"), "random_hypergraph": _box_rh("random_hypergraph"),
+    "random_simplicial_complex": _box_rsc, "watts_strogatz_hypergraph": _box_ws, "chung_lu_hypergraph": _box_cl,
+    "dcsbm_hypergraph": _box_dcsbm, "uniform_hypergraph_configuration_model": _box_cfg,
+    "flag_complex": _box_flag("flag_complex"), "flag_complex_d2": _box_flag("flag_complex_d2"),
+    "random_flag_complex": _box_flag("random_flag_complex"), "random_flag_complex_d2": _box_flag("random_flag_complex_d2"),
+    "random_layout": _box_layout("random_layout"), "pairwise_spring_layout": _box_layout("pairwise_spring_layout"),
+    "barycenter_spring_layout": _box_layout("barycenter_spring_layout"),
+    "weighted_barycenter_spring_layout": _box_layout("weighted_barycenter_spring_layout"),
+    "bipartite_spring_layout": _box_layout("bipartite_spring_layout"), "shuffle_hyperedges": _box_shuffle,
+    "spectral_clustering": _box_spectral,
+}
+NBOX = {"quick": 8, "thorough": 60}
+
+
+def box_variants(tier, seed_):
+    out = []
+    for fn, box in BOXES.items():
+        for i in range(NBOX[tier]):
+            out.append((f"{fn}@box{i}", lambda s, box=box, key=f"{seed_}/{fn}/{i}": box(random.Random(key))(SEEDMAP[s])))
+    return out
+
+
 def variants():
     """(name, callable(seed)) for every recipe, with python-int seeds and with numpy-integer seeds"""
     out = []
@@ -262,7 +441,7 @@ def _alarm(signum, frame):
 def _worker(args):
     fn, schedules, base = args
     signal.signal(signal.SIGALRM, _alarm)
-    f = dict(variants())[fn]
+    f = dict(variants() + box_variants(common.tier(), common.seed()))[fn]
     out = []
     for k, acts in enumerate(schedules):
         rec = []
@@ -294,7 +473,7 @@ def _worker(args):
             elif a["a"] == "seed_np":
                 np.random.seed(54321 + k)
             rec.append(e)
-        out.append({"rid": f"{fn}.{base + k}", "what": fn, "fn": fn, "acts": rec, "strict": "[np.int64" not in fn and "[SeedSequence" not in fn})
+        out.append({"rid": f"{fn}.{base + k}", "what": fn, "fn": fn, "acts": rec, "strict": "[np.int64" not in fn and "[SeedSequence" not in fn and "@box" not in fn})
     return out
 
 
@@ -330,6 +509,13 @@ def run(tier, seed_):
     rng = random.Random(seed_)
     per_fn = 24 if tier == "quick" else 400
     jobs = []
+    nb = 0
+    for i, (fn, _) in enumerate(box_variants(tier, seed_)):
+        if fn.split("@")[0] not in fns:
+            continue
+        pick = rng.sample(scheds, min(len(scheds), 5 if tier == "quick" else 30))
+        jobs.append((fn, pick, (1000 + i) * 100003))
+        nb += 1
     for i, fn in enumerate(allv):
         pick = scheds if len(scheds) <= per_fn else rng.sample(scheds, per_fn)
         if ("[np.int64" in fn or "[SeedSequence" in fn or "[positional" in fn) and tier == "quick":
@@ -369,5 +555,7 @@ def run(tier, seed_):
         samples=samples, selftest=selftest, class_of=lambda r: r["rid"],
         extra={"seeded_functions": fns, "uncovered_callables": uncovered},
         assumptions=["outputs are compared through a 31-bit digest of a canonical text (exact bytes for arrays); a "
-                     "collision could hide a difference", "arguments per function come from a recipe table; a new seeded "
-                     "function without recipe is listed as uncovered"])
+                     "collision could hide a difference", "arguments per function come from a recipe table and from argument boxes "
+                     "(harness/c17.py BOXES: degenerate block structures, odd sizes, probabilities 0 / 1 / tiny, sizes beyond "
+                     "size-dependent thresholds, optional arguments), sampled with the run's seed; a new seeded function "
+                     "without recipe is listed as uncovered"])
